@@ -104,6 +104,9 @@ func cmdCheck(args []string) {
 		os.Exit(2)
 	}
 	id := fs.Arg(0)
+	if r := os.Getenv("VERIF_REPO"); r != "" {
+		*repo = r // mutation evaluation: a scratch worktree instead of /repo
+	}
 	if t := os.Getenv("VERIF_TIER"); t == "quick" || t == "thorough" {
 		*tier = t
 	}
@@ -356,7 +359,11 @@ func (c *CheckCtx) run() int {
 	exit := 0
 	nviol := 0
 	var lines []string
-	os.MkdirAll(filepath.Join(c.Verif, "replays"), 0o755)
+	replayDir := filepath.Join(c.Verif, "replays")
+	if d := os.Getenv("VERIF_EVIDENCE_DIR"); d != "" {
+		replayDir = filepath.Join(d, "replays")
+	}
+	os.MkdirAll(replayDir, 0o755)
 	for i := range c.Viol {
 		v := &c.Viol[i]
 		if !v.Confirmed {
@@ -369,7 +376,7 @@ func (c *CheckCtx) run() int {
 			continue
 		}
 		nviol++
-		path := filepath.Join(c.Verif, "replays", fmt.Sprintf("%s-%d.json", c.P.ID, nviol))
+		path := filepath.Join(replayDir, fmt.Sprintf("%s-%d.json", c.P.ID, nviol))
 		v.Replay = path
 		b, _ := json.MarshalIndent(v, "", " ")
 		os.WriteFile(path, b, 0o644)
@@ -528,9 +535,13 @@ func (c *CheckCtx) writeEvidence(nviol int) {
 		"wall_s":      round3(time.Since(c.T0).Seconds()),
 		"violations":  nviol,
 	}
-	os.MkdirAll(filepath.Join(c.Verif, "evidence"), 0o755)
+	evDir := filepath.Join(c.Verif, "evidence")
+	if d := os.Getenv("VERIF_EVIDENCE_DIR"); d != "" {
+		evDir = d // mutation evaluation must not overwrite the evidence of the unchanged tree
+	}
+	os.MkdirAll(evDir, 0o755)
 	b, _ := json.MarshalIndent(ev, "", " ")
-	os.WriteFile(filepath.Join(c.Verif, "evidence", c.P.ID+".json"), b, 0o644)
+	os.WriteFile(filepath.Join(evDir, c.P.ID+".json"), b, 0o644)
 }
 
 func (c *CheckCtx) timeoutMs() int {
